@@ -977,6 +977,7 @@ func (db *DB) GetProperty(name string) (value string, err error) {
 	if err != nil {
 		return
 	}
+	verifAt("x.read.ok")
 
 	const prefix = "leveldb."
 	if !strings.HasPrefix(name, prefix) {
@@ -1115,6 +1116,7 @@ func (db *DB) Stats(s *DBStats) error {
 		s.BlockCacheSize = 0
 	}
 
+	verifAt("x.stats")
 	s.FileCache = db.s.tops.fileCache.GetStats()
 	if db.s.tops.blockCache != nil {
 		s.BlockCache = db.s.tops.blockCache.GetStats()
@@ -1164,6 +1166,7 @@ func (db *DB) SizeOf(ranges []util.Range) (Sizes, error) {
 	if err := db.ok(); err != nil {
 		return nil, err
 	}
+	verifAt("x.read.ok")
 
 	v := db.s.version()
 	defer v.release()
@@ -1223,6 +1226,7 @@ func (db *DB) Close() error {
 
 	// Signal all goroutines.
 	close(db.closeC)
+	verifAt("x.close.closed")
 
 	// Discard open transaction. An OpenTransaction that registers its
 	// transaction after this point sees the closed flag and discards it
@@ -1234,6 +1238,7 @@ func (db *DB) Close() error {
 		tr.Discard()
 	}
 
+	verifAt("x.close.lock")
 	// Acquire writer lock. In read-only mode the compaction error goroutine
 	// holds it and keeps it on our behalf (see compactionError): if it gave
 	// the lock back, a writer waiting for it could take it before us.
